@@ -254,8 +254,8 @@ theorem start_times_jittered (sc : Scenario) (fires : List Nat) (hf : fireTimes 
 /-- The state the scheduler ends in is the result of an executable schedule, so every
 theorem above about `run` applies to what the driver (and hence the compared
 implementation run) reports. -/
-theorem simulate_is_schedule (n : Nat) (tl : List ((Nat × Nat × Nat) × Event Nat String)) :
-    ∀ (tr : Trace), (∃ es, run (init n) es = some tr.state) →
+theorem simulate_is_schedule {α : Type} (n : Nat) (tl : List ((Nat × Nat × Nat) × Event α String)) :
+    ∀ (tr : Trace α), (∃ es, run (init n) es = some tr.state) →
       ∃ es, run (init n) es = some (runTimeline tr tl).state := by
   induction tl with
   | nil => intro tr h; simpa [runTimeline] using h
@@ -272,6 +272,187 @@ theorem simulate_is_schedule (n : Nat) (tl : List ((Nat × Nat × Nat) × Event 
         apply ih
         obtain ⟨es, hes⟩ := h
         exact ⟨es ++ [ev], by simp [run_append, hes, run, hs]⟩
+
+/-! ### `lookup_ipv4_ipv6_staggered`: what "first success" means for the merged call
+
+Every attempt is `tokio::join!(lookup_ipv4, lookup_ipv6)`.  On the level of the family
+lookups a schedule is a list of `FEvent`s; `coarsenK` is the `join!`. -/
+
+/-- Addresses a family lookup contributes. -/
+def addrsOfF : FRes → List Nat
+  | .ok a => a
+  | .err _ => []
+
+/-- An attempt of the merged lookup succeeds iff at least one of its two family lookups did,
+and then its value is the IPv4 addresses followed by the IPv6 addresses (a failed family
+contributes nothing). -/
+theorem merge_ok_iff (r4 r6 : FRes) (v : List Nat) :
+    mergeRes r4 r6 = .ok v ↔
+      ((∃ a, r4 = .ok a) ∨ (∃ b, r6 = .ok b)) ∧ v = addrsOfF r4 ++ addrsOfF r6 := by
+  cases r4 <;> cases r6 <;> simp [mergeRes, addrsOfF, eq_comm]
+
+/-- It fails iff both family lookups failed, and the error names both errors. -/
+theorem merge_err_iff (r4 r6 : FRes) (e : String) :
+    mergeRes r4 r6 = .err e ↔ ∃ e4 e6, r4 = .err e4 ∧ r6 = .err e6 ∧ e = s!"B:{e4}/{e6}" := by
+  cases r4 <;> cases r6 <;> simp [mergeRes, eq_comm]
+
+/-- `join!` passes attempt starts through unchanged. -/
+theorem coarsen_start {κ : Type} (es : List (κ × FEvent)) :
+    ∀ (pend : List (Nat × Fam × FRes)) (k : κ) (i : Nat),
+      (k, Event.start i) ∈ coarsenK pend es ↔ (k, FEvent.start i) ∈ es := by
+  induction es with
+  | nil => intro pend k i; simp [coarsenK]
+  | cons x rest ih =>
+    intro pend k i
+    obtain ⟨k', ev⟩ := x
+    cases ev with
+    | start j =>
+      simp only [coarsenK, List.mem_cons, Prod.mk.injEq, Event.start.injEq, FEvent.start.injEq]
+      rw [ih]
+    | fin f j r =>
+      simp only [coarsenK]
+      split
+      · simp only [List.mem_cons, Prod.mk.injEq, reduceCtorEq, and_false, false_or]
+        rw [ih]
+      · simp only [List.mem_cons, Prod.mk.injEq, reduceCtorEq, and_false, false_or]
+        rw [ih]
+
+/-- An attempt of the merged lookup ends only when BOTH of its family lookups have ended, with
+the merge of their two results (each taken from the schedule, or parked in `pend`). -/
+theorem coarsen_finish_needs_both {κ : Type} (es : List (κ × FEvent)) :
+    ∀ (pend : List (Nat × Fam × FRes)) (k : κ) (i : Nat) (x : FRes),
+      (k, Event.finish i x) ∈ coarsenK pend es →
+      ∃ r4 r6, x = mergeRes r4 r6 ∧
+        ((i, Fam.v4, r4) ∈ pend ∨ ∃ k4, (k4, FEvent.fin .v4 i r4) ∈ es) ∧
+        ((i, Fam.v6, r6) ∈ pend ∨ ∃ k6, (k6, FEvent.fin .v6 i r6) ∈ es) := by
+  induction es with
+  | nil => intro pend k i x h; simp [coarsenK] at h
+  | cons y rest ih =>
+    intro pend k i x h
+    obtain ⟨k', ev⟩ := y
+    cases ev with
+    | start j =>
+      simp only [coarsenK, List.mem_cons, Prod.mk.injEq, reduceCtorEq, and_false, false_or] at h
+      obtain ⟨r4, r6, hx, h4, h6⟩ := ih pend k i x h
+      refine ⟨r4, r6, hx, ?_, ?_⟩
+      · rcases h4 with h4 | ⟨k4, h4⟩
+        · exact Or.inl h4
+        · exact Or.inr ⟨k4, List.mem_cons_of_mem _ h4⟩
+      · rcases h6 with h6 | ⟨k6, h6⟩
+        · exact Or.inl h6
+        · exact Or.inr ⟨k6, List.mem_cons_of_mem _ h6⟩
+    | fin f j r =>
+      simp only [coarsenK] at h
+      cases hfind : pend.find? (fun p => p.1 == j && p.2.1 != f) with
+      | some p =>
+        obtain ⟨pi, pf, pr⟩ := p
+        rw [hfind] at h
+        simp only at h
+        have hmem := List.mem_of_find?_eq_some hfind
+        have hprop := List.find?_some hfind
+        simp only [Bool.and_eq_true, beq_iff_eq, bne_iff_ne, ne_eq] at hprop
+        obtain ⟨hpi, hpf⟩ := hprop
+        subst hpi
+        simp only [List.mem_cons, Prod.mk.injEq, Event.finish.injEq] at h
+        rcases h with ⟨_, hi, hx⟩ | h
+        · subst hi
+          cases f with
+          | v4 =>
+            have : pf = Fam.v6 := by cases pf <;> simp_all
+            subst this
+            exact ⟨r, pr, hx, Or.inr ⟨k', List.mem_cons_self⟩, Or.inl hmem⟩
+          | v6 =>
+            have : pf = Fam.v4 := by cases pf <;> simp_all
+            subst this
+            exact ⟨pr, r, hx, Or.inl hmem, Or.inr ⟨k', List.mem_cons_self⟩⟩
+        · obtain ⟨r4, r6, hx, h4, h6⟩ := ih _ k i x h
+          refine ⟨r4, r6, hx, ?_, ?_⟩
+          · rcases h4 with h4 | ⟨k4, h4⟩
+            · exact Or.inl (List.mem_filter.mp h4).1
+            · exact Or.inr ⟨k4, List.mem_cons_of_mem _ h4⟩
+          · rcases h6 with h6 | ⟨k6, h6⟩
+            · exact Or.inl (List.mem_filter.mp h6).1
+            · exact Or.inr ⟨k6, List.mem_cons_of_mem _ h6⟩
+      | none =>
+        rw [hfind] at h
+        simp only at h
+        obtain ⟨r4, r6, hx, h4, h6⟩ := ih _ k i x h
+        refine ⟨r4, r6, hx, ?_, ?_⟩
+        · rcases h4 with h4 | ⟨k4, h4⟩
+          · simp only [List.mem_cons, Prod.mk.injEq] at h4
+            rcases h4 with ⟨h1, h2, h3⟩ | h4
+            · subst h1; subst h2; subst h3; exact Or.inr ⟨k', List.mem_cons_self⟩
+            · exact Or.inl h4
+          · exact Or.inr ⟨k4, List.mem_cons_of_mem _ h4⟩
+        · rcases h6 with h6 | ⟨k6, h6⟩
+          · simp only [List.mem_cons, Prod.mk.injEq] at h6
+            rcases h6 with ⟨h1, h2, h3⟩ | h6
+            · subst h1; subst h2; subst h3; exact Or.inr ⟨k', List.mem_cons_self⟩
+            · exact Or.inl h6
+          · exact Or.inr ⟨k6, List.mem_cons_of_mem _ h6⟩
+
+/-- First success of the merged staggered lookup.  For any schedule `es` of attempt starts and
+family-lookup completions: the call has returned `Ok v` iff `v` is the value of the first
+attempt — in the order in which attempts END, an attempt ending with the later of its two
+lookups — whose merged result is a success; and then `v` is the merge of an IPv4 and an
+IPv6 result of one and the same attempt, both of which occur in the schedule. -/
+theorem merged_first_success {κ : Type} {n : Nat} (es : List (κ × FEvent)) {s : State (List Nat) String}
+    (h : run (init n) ((coarsenK [] es).map (·.2)) = some s) (v : List Nat) :
+    (s.result = some (.ok v) ↔ (oksOf ((coarsenK [] es).map (·.2))).head? = some v) ∧
+    (s.result = some (.ok v) →
+      ∃ i r4 r6 k4 k6, (k4, FEvent.fin .v4 i r4) ∈ es ∧ (k6, FEvent.fin .v6 i r6) ∈ es ∧
+        mergeRes r4 r6 = .ok v ∧ v = addrsOfF r4 ++ addrsOfF r6) := by
+  refine ⟨first_success h v, ?_⟩
+  intro hv
+  obtain ⟨pre, i, hes, _⟩ := success_returns_at_once h v hv
+  have hmem : Event.finish i (Res.ok v) ∈ (coarsenK [] es).map (·.2) := by rw [hes]; simp
+  simp only [List.mem_map] at hmem
+  obtain ⟨⟨k, ev⟩, hk, hev⟩ := hmem
+  simp only at hev
+  subst hev
+  obtain ⟨r4, r6, hx, h4, h6⟩ := coarsen_finish_needs_both es [] k i _ hk
+  simp only [List.not_mem_nil, false_or] at h4 h6
+  obtain ⟨k4, h4⟩ := h4
+  obtain ⟨k6, h6⟩ := h6
+  exact ⟨i, r4, r6, k4, k6, h4, h6, hx.symm, ((merge_ok_iff r4 r6 v).mp hx.symm).2⟩
+
+/-- In the merged timeline too, the lookups of slot 0 are issued at time 0 and those of slot
+`i + 1` at exactly `add_jitter(delays[i])`, within ±20 % of `delays[i]`. -/
+theorem start_times_jittered_both (sc : Scenario) (fires : List Nat) (hf : fireTimes sc = some fires)
+    (hd : ∀ p, p ∈ sc.delays → p.1 ≤ u64Max)
+    (key : Nat × Nat × Nat) (slot : Nat)
+    (hmem : (key, Event.start slot) ∈ timelineBoth sc fires) :
+    (slot = 0 ∧ key.1 = 0) ∨
+    (∃ i d r, slot = i + 1 ∧ sc.delays[i]? = some (d, r) ∧ addJitter d r = some key.1 ∧
+      5 * (d - key.1) ≤ d ∧ 5 * (key.1 - d) ≤ d) := by
+  have hfire : fires[slot]? = some key.1 := by
+    unfold timelineBoth at hmem
+    rw [coarsen_start] at hmem
+    simp only [fineTimeline, List.mem_filter, List.mem_mergeSort, List.mem_append, List.mem_map] at hmem
+    obtain ⟨hmem, _⟩ := hmem
+    rcases hmem with (⟨⟨⟨sl, s⟩, k⟩, hin, heq⟩ | ⟨⟨⟨sl, s⟩, k⟩, _, heq⟩) | ⟨⟨⟨sl, s⟩, k⟩, _, heq⟩
+    · simp only [Prod.mk.injEq, FEvent.start.injEq] at heq
+      obtain ⟨hk, hs⟩ := heq
+      subst hs
+      have := mem_callOrder (List.mem_of_getElem? (List.mem_zipIdx_iff_getElem?.mp hin))
+      rw [← hk]; exact this
+    · simp at heq
+    · simp at heq
+  unfold fireTimes at hf
+  cases hm : jitterAll sc.delays with
+  | none => simp [hm] at hf
+  | some l =>
+    simp only [hm, Option.map_some, Option.some.injEq] at hf
+    subst hf
+    cases slot with
+    | zero => left; simp at hfire; exact ⟨rfl, hfire.symm⟩
+    | succ i =>
+      right
+      simp only [List.getElem?_cons_succ] at hfire
+      obtain ⟨d, r, hdel, hj⟩ := jitterAll_getElem? hm hfire
+      have hb := hd (d, r) (List.mem_of_getElem? hdel)
+      have := jitter_within_20pct d r key.1 hb hj
+      exact ⟨i, d, r, rfl, hdel, hj, this.1, this.2.1⟩
 
 /-! ### non-vacuity -/
 
@@ -290,4 +471,13 @@ example : addJitter u64Max 0 = some (u64Max - 92233720368547758) := by decide
 -- jittered sleeps of a concrete scenario (hypothesis of `start_times_jittered`)
 example : fireTimes (Scenario.mk 100 400 [(100, 0), (50, 39)] []) = some [0, 80, 59] := by decide
 
+end IrohModel.C34
+
+namespace IrohModel.C34
+-- merged lookup: attempt 0's IPv6 lookup fails, its IPv4 lookup succeeds later; attempt 1 fails
+-- in between; the value is attempt 0's IPv4 answer, returned when the later lookup ended
+example : ∃ s : State (List Nat) String,
+    run (init 1) ((coarsenK [] [((), FEvent.start 0), ((), .fin .v6 0 (.err "e1")), ((), .start 1),
+      ((), .fin .v4 1 (.err "e2")), ((), .fin .v6 1 (.err "e3")), ((), .fin .v4 0 (.ok [0]))]).map (·.2)) = some s ∧
+    s.result = some (.ok [0]) := ⟨_, rfl, rfl⟩
 end IrohModel.C34
